@@ -3,7 +3,9 @@
 package deployc
 
 import (
+	"bytes"
 	"context"
+	"errors"
 	"fmt"
 	"math"
 	"math/rand/v2"
@@ -65,6 +67,11 @@ type adapter struct {
 	jitter time.Duration
 	rng    *rand.Rand
 	rmu    sync.Mutex
+	// crash gate: the member's process dies right after it has handed the transaction that registers crashOn
+	// (an NNS name) to the node; everything it tries to send afterwards is lost
+	crashOn string
+	crashed atomic.Bool
+	onCrash func()
 }
 
 func (a *adapter) delay() {
@@ -92,7 +99,15 @@ func (a *adapter) SubscribeToNotaryRequests() (<-chan *result.NotaryRequestEvent
 
 func (a *adapter) SendRawTransaction(tx *transaction.Transaction) (util.Uint256, error) {
 	a.delay()
+	if a.crashed.Load() {
+		a.rec.add(rpcEvent{Member: a.member, Height: a.nd.Height(), Call: "sendrawtransaction", Err: "member is down (injected crash)"})
+		return util.Uint256{}, errors.New("member is down (injected crash)")
+	}
 	h, err := a.Internal.SendRawTransaction(tx)
+	if err == nil && a.crashOn != "" && bytes.Contains(tx.Script, []byte(a.crashOn)) && bytes.Contains(tx.Script, []byte("register")) && a.crashed.CompareAndSwap(false, true) {
+		a.rec.add(rpcEvent{Member: a.member, Height: a.nd.Height(), Call: "crash", Info: "right after sending the registration of " + a.crashOn})
+		a.onCrash()
+	}
 	ev := rpcEvent{Member: a.member, Height: a.nd.Height(), Call: "sendrawtransaction", Info: fmt.Sprintf("tx %s sender %s signers %d vub %d", tx.Hash().StringLE()[:12], tx.Sender().StringLE()[:8], len(tx.Signers), tx.ValidUntilBlock)}
 	if err != nil {
 		ev.Err = err.Error()
@@ -103,6 +118,9 @@ func (a *adapter) SendRawTransaction(tx *transaction.Transaction) (util.Uint256,
 
 func (a *adapter) SubmitP2PNotaryRequest(req *payload.P2PNotaryRequest) (util.Uint256, error) {
 	a.delay()
+	if a.crashed.Load() {
+		return util.Uint256{}, errors.New("member is down (injected crash)")
+	}
 	h, err := a.Internal.SubmitP2PNotaryRequest(req)
 	ev := rpcEvent{Member: a.member, Height: a.nd.Height(), Call: "submitnotaryrequest", Info: fmt.Sprintf("main %s", req.MainTransaction.Hash().StringLE()[:12])}
 	if err != nil {
@@ -136,6 +154,9 @@ type scenario struct {
 	RestartWhen string
 	// RestartDelay: blocks between an interruption and the new start of that member
 	RestartDelay int
+	// StayAway: the interrupted member comes back only after the Notary role is designated (it crashed in the
+	// middle of the bootstrap and the others have to do without it)
+	StayAway bool
 	// second interruption: another member, or the same one again after its restart (-1: none)
 	Restart2Of int
 	Restart2At int
@@ -177,6 +198,11 @@ func scenarios(tier string, seed uint64) (res []scenario) {
 		// the only member is interrupted right at a stage boundary (seeded change C13-3: a restart between the two role designations)
 		// (every offset of the few blocks between the designation and the first transaction that needs it:
 		// seeded change C13-5 needs the leader to come back exactly there)
+		// a non-leading member crashes right after registering its signature domain, before it has published the
+		// signature, and stays away: leader and the remaining member are a majority (seeded change C13-7)
+		s = mk(3, "crash-mid-bootstrap")
+		s.RestartOf, s.RestartWhen, s.RestartAt, s.StayAway = 1, "sigdomain:1", 0, true
+		res = append(res, s)
 		for _, ad := range [][2]int{{0, 0}, {0, 1}, {1, 0}} {
 			s = mk(1, "stage-restart")
 			s.RestartOf, s.RestartWhen, s.RestartAt, s.RestartDelay = 0, "notary-designated", ad[0], ad[1]
@@ -232,6 +258,12 @@ func scenarios(tier string, seed uint64) (res []scenario) {
 		if n >= 3 {
 			res = append(res, lateMajority(jit(mk(n, "late-majority")), r))
 		}
+		if n >= 3 {
+			s = jit(mk(n, "crash-mid-bootstrap"))
+			k := 1 + r.IntN(n/2) // low index: the leader meets it before the members it still needs
+			s.RestartOf, s.RestartWhen, s.RestartAt, s.StayAway = k, fmt.Sprintf("sigdomain:%d", k), 0, true
+			res = append(res, s)
+		}
 		if n <= 2 {
 			for _, st := range stages {
 				s = jit(mk(n, "stage-restart"))
@@ -270,6 +302,7 @@ func lateMajority(s scenario, r *rand.Rand) scenario {
 const blockBudget = 1500
 
 type memberRun struct {
+	started    bool // Deploy was called at least once (startBlock may legitimately be 0)
 	startBlock uint32
 	endBlock   uint32
 	err        error
@@ -321,6 +354,20 @@ func stageReached(nd *node.Node, stage string) bool {
 		}
 		recs, err := (&chainReader{nd: nd}).resolveTXT(h, name)
 		return err == nil && len(recs) > 0
+	}
+	if strings.HasPrefix(stage, "sigdomain:") {
+		// the member's signature domain is registered but holds no record yet
+		h, err := nd.Chain.GetContractScriptHash(1)
+		if err != nil {
+			return false
+		}
+		name := "designate-committee-notary-" + strings.TrimPrefix(stage, "sigdomain:") + ".bootstrap"
+		cli, err := nd.Client()
+		if err != nil {
+			return false
+		}
+		free, err := unwrap.Bool(invoker.New(cli, nil).Call(h, "isAvailable", name))
+		return err == nil && !free && !resolves(name)
 	}
 	switch stage {
 	case "nns-deployed":
@@ -441,7 +488,7 @@ func runScenario(b *runner.Batch, sc scenario) {
 		}
 		ctx, cancel := context.WithCancel(context.Background())
 		mu.Lock()
-		runs[i].startBlock = nd.Height()
+		runs[i].startBlock, runs[i].started = nd.Height(), true
 		mu.Unlock()
 		interrupted := false
 		at := -1
@@ -459,24 +506,36 @@ func runScenario(b *runner.Batch, sc scenario) {
 			if nth == 0 && sc.RestartOf == i {
 				when = sc.RestartWhen
 			}
-			go func() {
-				for when != "" && !stageReached(nd, when) && time.Since(start) < watchdog && nd.Height() < 3*blockBudget {
+			if strings.HasPrefix(when, "sigdomain:") {
+				// decided at the member's own client boundary, not by polling the chain: the member dies with the
+				// registration of its signature domain sent and the signature not yet published, on every schedule
+				a.crashOn = "designate-committee-notary-" + strings.TrimPrefix(when, "sigdomain:") + ".bootstrap"
+				a.onCrash = func() {
 					mu.Lock()
-					d := runs[i].done
-					mu.Unlock()
-					if d {
-						return
-					}
-					time.Sleep(blockTime / 4)
-				}
-				waitBlocks(at)
-				mu.Lock()
-				if !runs[i].done {
 					interrupted = true
+					mu.Unlock()
+					cancel()
 				}
-				mu.Unlock()
-				cancel()
-			}()
+			} else {
+				go func() {
+					for when != "" && !stageReached(nd, when) && time.Since(start) < watchdog && nd.Height() < 3*blockBudget {
+						mu.Lock()
+						d := runs[i].done
+						mu.Unlock()
+						if d {
+							return
+						}
+						time.Sleep(blockTime / 4)
+					}
+					waitBlocks(at)
+					mu.Lock()
+					if !runs[i].done {
+						interrupted = true
+					}
+					mu.Unlock()
+					cancel()
+				}()
+			}
 		}
 		derr := deploy.Deploy(ctx, prm)
 		mu.Lock()
@@ -492,6 +551,11 @@ func runScenario(b *runner.Batch, sc scenario) {
 			go func() {
 				defer cancel()
 				waitBlocks(sc.RestartDelay)
+				if sc.StayAway {
+					for !notaryDesignated(nd) && time.Since(start) < watchdog && nd.Height() < 3*blockBudget {
+						time.Sleep(blockTime)
+					}
+				}
 				runMember(i, false)
 			}()
 			return
@@ -522,7 +586,7 @@ wait:
 			}
 			mu.Lock()
 			for i, r := range runs {
-				if !r.done && r.startBlock > 0 && nd.Height() > r.startBlock+blockBudget {
+				if !r.done && r.started && nd.Height() > r.startBlock+blockBudget {
 					overBudget = true
 					_ = i
 				}
@@ -1030,7 +1094,7 @@ func runC13(b *runner.Batch) {
 func init() {
 	runner.Register(&runner.Check{
 		ID: "C13", Level: "exploration",
-		Rule: "Scenarios on a real in-process neo-go node (blockchain, network server with mempool and notary request pool, Notary service, RPC server with in-process clients, harness block producer as logical clock): every committee member runs the public deploy.Deploy with the embedded contracts; a scenario fixes committee size (quick 1,2,3,4,4,3,4; thorough 1..7 x 8-9), per-member start offsets, per-call delays injected at the RPC boundary, optionally an interruption of one member at a PRNG-chosen block followed by a restart, optionally a state-triggered interruption (the run is cancelled when the chain shows a stage boundary: NNS deployed, Notary role designated, NeoFSAlphabet role designated, proxy / netmap / container registered), a restart delay of 0-5 blocks, optionally a second interruption (of the same or another member), optionally a minority of non-leading members absent until the Notary role appears, optionally a 'late majority' (one member short of a majority publishes signatures, the completing member joins 135 blocks after the last early signature appeared in the NNS; the monitor confirms that the shared transaction data was generated again in between). Judged: return values, progress within 1500 blocks and no global silence (no submission attempt by anybody) longer than 150 blocks while unfinished, roles, NNS id and records, executables by checksum, ContractManagement Deploy event counts, submissions the node refuses as invalid, a second run over the finished chain one hour / thirty days of chain time later (must finish; no Deploy/Update/Designation event, NNS storage unchanged), and Go race detector reports with a frame in neofs-contract/deploy (the child binary is built with -race). Pure helpers through verif-tagged exports: fund division exhaustive for 0..2000 x 1..41 plus uint64 boundaries, nonce/validity window for heights 0..10000 and the last 300 below 2^32, shared-transaction-data codec round trips. distinct = scenario (size, label, outcome) and helper class.",
+		Rule: "Scenarios on a real in-process neo-go node (blockchain, network server with mempool and notary request pool, Notary service, RPC server with in-process clients, harness block producer as logical clock): every committee member runs the public deploy.Deploy with the embedded contracts; a scenario fixes committee size (quick 1,2,3,4,4,3,4; thorough 1..7 x 8-9), per-member start offsets, per-call delays injected at the RPC boundary, optionally an interruption of one member at a PRNG-chosen block followed by a restart, optionally a state-triggered interruption (the run is cancelled when the chain shows a stage boundary: NNS deployed, Notary role designated, NeoFSAlphabet role designated, proxy / netmap / container registered), optionally a crash injected at a member's own client boundary (the registration of its signature domain is let through, everything it sends afterwards fails and it is cancelled; it stays away until the Notary role is designated), a restart delay of 0-5 blocks, optionally a second interruption (of the same or another member), optionally a minority of non-leading members absent until the Notary role appears, optionally a 'late majority' (one member short of a majority publishes signatures, the completing member joins 135 blocks after the last early signature appeared in the NNS; the monitor confirms that the shared transaction data was generated again in between). Judged: return values, progress within 1500 blocks and no global silence (no submission attempt by anybody) longer than 150 blocks while unfinished, roles, NNS id and records, executables by checksum, ContractManagement Deploy event counts, submissions the node refuses as invalid, a second run over the finished chain one hour / thirty days of chain time later (must finish; no Deploy/Update/Designation event, NNS storage unchanged), and Go race detector reports with a frame in neofs-contract/deploy (the child binary is built with -race). Pure helpers through verif-tagged exports: fund division exhaustive for 0..2000 x 1..41 plus uint64 boundaries, nonce/validity window for heights 0..10000 and the last 300 below 2^32, shared-transaction-data codec round trips. distinct = scenario (size, label, outcome) and helper class.",
 		Assumptions: []string{"neo-go v0.107.0 node components are the trusted base", "goroutine interleavings are sampled, not enumerated; a replay re-runs the scenario parameters and carries the recorded RPC log of the failing run as witness",
 			"funding transfers (GAS top-ups, notary deposits) of a second run are logged, not judged"},
 		Batches: func(t string) int { return 1 + len(scenarios(t, 1)) },
